@@ -1030,3 +1030,60 @@ def c16(chk, tier):
     chk.cov["rule"] = ("one executor run over (suites x roles) hook-built contexts with known secrets and (suites x 4 modes x both "
                        "roles) real setups, each used and dropped, plus the KEM shared secret of every setup; the whole log is one "
                        "trace validated by TLC; distinct = distinct (event kind, suite, mode, role)")
+
+
+# ------------------------------------------------------------------------------------------- C17
+@prop("C17", level="exploration")
+def c17(chk, tier):
+    thorough = tier == "thorough"
+    from . import features, tlcrun
+    from .common import SPEC
+    chk.assumptions += [
+        "the expected surface of each feature subset comes from spec/HpkeFeatures.tla (TLC enumerates the 64 subsets x "
+        "guard); a subset is 'replayed' by building: cargo check of the crate, a generated probe crate that names every "
+        "expected item (must compile) and each absent one (must not), cargo test of the crate, and a scripted scenario per "
+        "enabled KEM whose outputs must equal those under the full feature set",
+        "kat_tests::kat_test is skipped: it parses test-vectors-5f503c5.json, which is EMPTY in the pinned tree (a "
+        "property of the snapshot, not of any feature combination); its intent is covered by C02/C03",
+        "quick tier: 12 subsets (rotating with the seed); thorough: all 64, guard on and off"]
+    res = tlcrun.run("HpkeFeatures", os.path.join(SPEC, "HpkeFeatures.cfg"), workers=1, timeout=300)
+    chk.add_tlc(res.stats, "features")
+    apis = [a for a in res.printed if isinstance(a, dict) and "features" in a]
+    if len(apis) != 128:
+        raise ToolError("expected 128 (subset, guard) records, got %d" % len(apis))
+    by = {(frozenset(a["features"]), a["guard"]): a for a in apis}
+    full = frozenset(features.ALL_FEATURES)
+    if thorough:
+        todo = [(f, g) for (f, g) in by]
+    else:
+        singles = [frozenset([x]) for x in features.ALL_FEATURES]
+        base = [frozenset(), full, frozenset(["alloc", "p256", "x25519"]), frozenset(["std", "p384"])] + singles
+        allsets = sorted((f for (f, g) in by if not g), key=lambda s: (len(s), sorted(s)))
+        extra = [allsets[(seed() * 7 + k * 13) % 64] for k in range(2)]
+        todo = [(f, False) for f in dict.fromkeys(base + extra)] + [(full, True), (frozenset(["p521"]), True)]
+    b = features.Builder("C17")
+    try:
+        ref = features.check_subset(chk, b, by[(full, False)], tests=True)
+        if ref is None:
+            ref = []
+        for f, g in sorted(todo, key=lambda x: (x[1], len(x[0]), sorted(x[0]))):
+            if (f, g) == (full, False):
+                continue
+            features.check_subset(chk, b, by[(f, g)], tests=(thorough or not g), digest_ref=ref)
+            chk.trace_ok()
+        # examples and the bench target under their required features
+        for cmd in (["cargo", "check", "--offline", "--example", "client_server", "--features", "x25519"],
+                    ["cargo", "check", "--offline", "--example", "agility", "--features", "p256,p384,p521,x25519"],
+                    ["cargo", "check", "--offline", "--benches", "--all-features"]):
+            rc, out = features.run(cmd, features.REPO, b.flags(False))
+            chk.case(("target", " ".join(cmd[3:])))
+            if rc != 0:
+                chk.violation("bundled target does not build: " + " ".join(cmd), {"kind": "build", "command": " ".join(cmd),
+                              "output": out[-3000:], "fingerprint": "c17-target-" + cmd[4]})
+        chk.sample({"subset": sorted(full), "guard": False, "scenario_outputs": ref[:2]})
+    finally:
+        b.cleanup()
+    chk.cov["exhaustive"] = thorough
+    chk.cov["rule"] = ("feature subsets (x guard) enumerated by TLC from spec/HpkeFeatures.tla; per subset: library check, "
+                       "positive and negative surface probes, the crate's tests, scripted scenario digest vs the full feature "
+                       "set; distinct = distinct (kind of build, subset, guard, item)")
